@@ -539,8 +539,8 @@ func runC19(c *Ctx) {
 	}
 	c.Sample(map[string]interface{}{"mutation_kinds": []string{"trunc", "subst", "tree", "tree2", "stray"}, "substitution_bytes": substBytes, "fields": fields, "operators": ops})
 	c.Meta(map[string]interface{}{
-		"rule": "files: for every base database, schema.json and every object file: every truncation length, every single-byte substitution from a 12-byte set at every offset, every single JSON-tree mutation (each node replaced by each of 13 values, each key/element deleted, each array element duplicated; compressed files are mutated both as gzip bytes and as JSON then recompressed; thorough: all pairs of tree mutations inside the index subtree), stray files and sub-directories (names without a dot, without extension, uuid-like, directories in place of files); arguments: 23 field paths x 11 operators x 26 value kinds on empty and non-empty collections under three index configurations, also as And/Or refinements. Each case: fresh handle, the public call set (first load, Control, Get, Exist, Count, All, 7 searches with Collect/Assign/One/And/Or, AssignIndex, inserts, update, batch, Delete, Repair, DeleteAll, Create, Close), every call under recover. Oracle: no panic, no hang (30 s wall watchdog per case, reported as a hang), no objects from a search that reported an error. states = distinct mutated directories; non-trivial = all but the unmodified control case.",
-		"bases": len(bases),
+		"rule":        "files: for every base database, schema.json and every object file: every truncation length, every single-byte substitution from a 12-byte set at every offset, every single JSON-tree mutation (each node replaced by each of 13 values, each key/element deleted, each array element duplicated; compressed files are mutated both as gzip bytes and as JSON then recompressed; thorough: all pairs of tree mutations inside the index subtree), stray files and sub-directories (names without a dot, without extension, uuid-like, directories in place of files); arguments: 23 field paths x 11 operators x 26 value kinds on empty and non-empty collections under three index configurations, also as And/Or refinements. Each case: fresh handle, the public call set (first load, Control, Get, Exist, Count, All, 7 searches with Collect/Assign/One/And/Or, AssignIndex, inserts, update, batch, Delete, Repair, DeleteAll, Create, Close), every call under recover. Oracle: no panic, no hang (30 s wall watchdog per case, reported as a hang), no objects from a search that reported an error. states = distinct mutated directories; non-trivial = all but the unmodified control case.",
+		"bases":       len(bases),
 		"assumptions": []string{"the documented misuse of Assign/AssignIndex targets is not exercised", "one mutation per file (thorough: two inside the index subtree)"},
 	})
 }
